@@ -13,12 +13,20 @@ pub fn st_no(s: &S4) -> i64 { match s { S4::S1 => 1, S4::S2 => 2, S4::S3 => 3, S
 
 pub type Anim = EnumStateAnimator<S4, P4Timeline>;
 
-pub fn build_anim(line: &Value, s: i64) -> Anim {
+pub fn build_anim(line: &Value, s: i64) -> Anim { build_anim_order(line, s, false) }
+
+/// `on_first`: call `.on(..)` for every state BEFORE `from_state` / `from_values` (the builder documents no
+/// order; the result must be the same).
+pub fn build_anim_order(line: &Value, s: i64, on_first: bool) -> Anim {
     let pd = line["pd"].as_i64().unwrap();
     let pmap = crate::tl::pmap_of(line);
     let mut init = SENT.clone();
-    for (i, v) in line["v0"].as_array().unwrap().iter().enumerate() { init.set(pmap[i], v.as_i64().unwrap() as f64); }
-    let mut b = StateAnimatorBuilder::new().from_state(st(line["s0"].as_i64().unwrap())).from_values(init);
+    for (i, v) in line["v0"].as_array().unwrap().iter().enumerate() {
+        let p = pmap[i];
+        init.set(p, v.as_i64().unwrap() as f64 * if p <= 2 { crate::tl::vscale() as f64 } else { 1.0 });
+    }
+    let mut b = StateAnimatorBuilder::new();
+    if !on_first { b = b.from_state(st(line["s0"].as_i64().unwrap())).from_values(init.clone()); }
     for (i, comps) in line["tls"].as_array().unwrap().iter().enumerate() {
         let comps = comps.as_array().unwrap();
         if comps.is_empty() { continue; }
@@ -27,6 +35,7 @@ pub fn build_anim(line: &Value, s: i64) -> Anim {
         let tls: Vec<P4Timeline> = comps.iter().map(|c| build_tl(c, pd, &pmap, s)).collect();
         b = if tls.len() == 1 { b.on(st(i as i64 + 1), tls.into_iter().next().unwrap()) } else { b.on(st(i as i64 + 1), MergedTimeline::of(tls)) };
     }
+    if on_first { b = b.from_values(init).from_state(st(line["s0"].as_i64().unwrap())); }
     b.build()
 }
 
@@ -38,11 +47,20 @@ pub fn replay_anim_line(tally: &mut Tally, lineno: usize, line: &Value, scales: 
     let ops = line["ops"].as_array().unwrap();
     let obs = line["obs"].as_array().unwrap();
     tally.tag(&format!("config_{}", line["k"]));
-    for &s in scales {
+    // value scale of the extra pass: the largest power of two keeping every float value finite
+    let mut maxabs = 1.0f64;
+    for v in line["v0"].as_array().unwrap() { maxabs = maxabs.max(v.as_i64().unwrap().abs() as f64); }
+    for comps in line["tls"].as_array().unwrap() { for c in comps.as_array().unwrap() { for kf in c["kfs"].as_array().unwrap() { for d in kf["d"].as_array().unwrap() {
+        if let Some(v) = d.as_array().unwrap().first() { maxabs = maxabs.max(v.as_i64().unwrap().abs() as f64); } } } } }
+    let big = (2.0f64).powi((3.0e38f64 / maxabs).log2().floor() as i32) as f32;
+    let mut passes: Vec<(i64, f32)> = scales.iter().map(|&s| (s, 1.0f32)).collect();
+    passes.push((scales[0], big));
+    for &(s, vs) in &passes {
+        crate::tl::set_vscale(vs);
         let r = catch_unwind(AssertUnwindSafe(|| {
             let mut t = Tally::new();
-            let mut a = build_anim(line, s);
-            let mut twin = build_anim(line, s);     // same history, time delivered in a different partition (C06)
+            let mut a = build_anim_order(line, s, lineno % 2 == 0);
+            let mut twin = build_anim_order(line, s, lineno % 2 == 1);     // same history, time delivered in a different partition (C06); other builder call order
             let tick = scale(s);
             for (i, (op, ob)) in ops.iter().zip(obs.iter()).enumerate() {
                 let ctx = |class: &str, extra: Value| json!({"line": lineno, "scale": s, "step": i + 1, "class": class, "op": op, "detail": extra,
@@ -76,7 +94,8 @@ pub fn replay_anim_line(tally: &mut Tally, lineno: usize, line: &Value, scales: 
                 let v = a.current_values();
                 for (pi, term) in ob["vals"].as_array().unwrap().iter().enumerate() {
                     let p = pmap[pi];
-                    if !agrees(term, v.get(p), P4::is_int(p), f64::NAN) {
+                    let ok = if vs != 1.0 && !P4::is_int(p) { agrees_any_scaled(&json!([term]), v.get(p), f64::NAN, vs as f64) } else { agrees(term, v.get(p), P4::is_int(p), f64::NAN) };
+                    if !ok {
                         t.miss(ctx("vals", json!({"prop": p, "got": v.get(p), "expected": term})));
                     }
                 }
@@ -98,6 +117,7 @@ pub fn replay_anim_line(tally: &mut Tally, lineno: usize, line: &Value, scales: 
             }
             t
         }));
+        crate::tl::set_vscale(1.0);
         match r {
             Ok(t) => tally.absorb(t),
             Err(e) => { let msg = e.downcast_ref::<String>().cloned().or_else(|| e.downcast_ref::<&str>().map(|s| s.to_string())).unwrap_or_default();
